@@ -679,6 +679,12 @@ func runC11(ctx *core.Ctx) {
 		c11Add(ctx, "c11.canonical", "cn-random", m{"services": m{"a": svc(true), "b": svc(false)}}, nil)
 	}
 
+	// the defaults inside the unicity keys (c11_keys.go)
+	c11KeysStreams(ctx)
+
+	// the three stages composed (c11_pipeline.go)
+	c11PipelineStream(ctx)
+
 	// direct oracle on whole loads
 	c11Oracle(ctx)
 }
